@@ -8,6 +8,7 @@ func init() {
 		Assume:  []string{"lexical behaviour of httphead on arbitrary header values and byte-exact response layout are not decided"},
 		Run: func(c *Ctx) {
 			serverUpgraderRules(c, "C09")
+			httpUpgraderRules(c, "C09")
 		},
 	})
 }
